@@ -34,7 +34,14 @@ def run(tier, seed):
     kani_part = None
     try:
         import kani_run
-        kani_part = kani_run.run_group(res, "C10", ["layout_"], tier, mode="merged", checks="default")
+        kani_part = kani_run.run_group(res, "C10", ["layout_"], tier, jobs=7, timeout_s=900)
+        for n, d in kani_part.get("candidates", []):
+            import kani_replay
+            ok2, why, path = kani_replay.replay("C10", n, d)
+            if ok2:
+                res.violations.append(("%s: %s (%s)" % (n, d, why), path))
+            else:
+                res.inconclusive.append("%s: counterexample of '%s' did not replay natively: %s" % (n, d, why))
     except ImportError:
         pass
     res.coverage = {
